@@ -60,6 +60,7 @@ type cfgT struct {
 	RuleKind  string `json:"rule_kind,omitempty"`
 	Distr     bool   `json:"distr,omitempty"` // limit_distribution on the default rule: lvl: 0.5 -> x, 0.3 -> y
 	RuleDistr bool   `json:"rule_distr,omitempty"`
+	Rule3     bool   `json:"rule3,omitempty"` // the rule has three conditions (r=1, q=2, p=3) instead of one
 }
 
 var ratios = []float64{0.5, 0.3}
@@ -91,6 +92,9 @@ func (c cfgT) pluginJSON() string {
 	}
 	if c.Rule {
 		rule := map[string]any{"limit": c.RuleLimit, "limit_kind": c.RuleKind, "conditions": map[string]string{"r": "1"}}
+		if c.Rule3 {
+			rule["conditions"] = map[string]string{"r": "1", "q": "2", "p": "3"}
+		}
 		if c.RuleDistr {
 			rule["limit_distribution"] = distrJSON()
 		}
@@ -282,6 +286,9 @@ func (w *world) event(clockN int, o op) *pipeline.Event {
 	}
 	if o.Cond {
 		sb.WriteString(`,"r":"1"`)
+		if w.cfg.Rule3 {
+			sb.WriteString(`,"p":"3","q":"2"`)
+		}
 	}
 	sb.WriteString("}")
 	e, err := vplug.NewEvent(sb.String())
@@ -587,6 +594,11 @@ func plans(thorough bool) []plan {
 			add("rule", cfg, d-1, times4, sizes, noVal, anyCond, clocksFor(c.bc))
 			add("rule-deep", cfg, d, nowPast, sizes, noVal, anyCond, []int{1, c.bc + 1})
 		}
+	}
+	// a rule with several conditions (every one of them has to hold for its own field)
+	{
+		cfg := cfgT{Limit: 1, Kind: "count", Buckets: 2, Rule: true, RuleLimit: 3, RuleKind: "count", Rule3: true}
+		add("rule-3cond", cfg, d-1, times4, sizesFor("count"), noVal, anyCond, clocksFor(2))
 	}
 	// the extra rule carries the distribution, the default rule does not
 	{
